@@ -917,6 +917,23 @@ def main():
             rw = "; ".join("try setoid_rewrite tie_%s" % u for u in sorted(set(used)))
             outl.append("Theorem %s_src :%s\nProof. %s; exact %s. Qed.\n" % (tname, st2, rw, tname))
             names.append(tname + "_src")
+        if pid == "C01":
+            # every public parser of the source, by name: the translated source text never reaches a panic guard
+            # (unsigned subtraction, slice index, chunk[1], expect) and its loops terminate -- from the tie and the model's Safe lemma
+            ps = open(os.path.join(VERIF, "coq", "Proofs", "PublicSafe.v")).read()
+            outl.insert(len(imports) + 4, "From TlsModel Require Import PublicSafe NomGeneric TieTactics.\nFrom Coq Require Import List String.")
+            plain = re.findall(r'\("([A-Za-z_0-9:]+)", PE _ (\w+)\)', ps)
+            witharg = re.findall(r'\("([A-Za-z_0-9:]+)", fun n => PE _ \((\w+) n\)\)', ps)
+            for pos, (rust, mname) in enumerate(plain):
+                if rust not in tied or tied[rust] != mname or rust in ("parse_tls_message_applicationdata",): continue
+                outl.append("Theorem C01_src_safe_%s : forall i, safe (src_%s i).\nProof. intro i; rewrite tie_%s; "
+                            "exact (forall_nth_error _ _ C01_public_parsers_safe %d (\"%s\"%%string, PE _ %s) eq_refl i). Qed.\n" % (rust, rust, rust, pos, rust, mname))
+                names.append("C01_src_safe_%s" % rust)
+            for pos, (rust, mname) in enumerate(witharg):
+                if rust not in tied or tied[rust] != mname: continue
+                outl.append("Theorem C01_src_safe_%s : forall n i, safe (src_%s n i).\nProof. intros n i; rewrite tie_%s; "
+                            "exact (forall_nth_error _ _ C01_public_parsers_with_argument_safe %d (\"%s\"%%string, fun n => PE _ (%s n)) eq_refl n i). Qed.\n" % (rust, rust, rust, pos, rust, mname))
+                names.append("C01_src_safe_%s" % rust)
         for n in names: outl.append("Print Assumptions %s." % n)
         if names:
             write_if_changed("%s_src.v" % pid, "\n".join(outl) + "\n")
